@@ -172,6 +172,8 @@ pub struct World {
     /// latency for datagrams from / to raw peers
     pub raw_latency_us: u32,
     pub drop_all: bool,
+    /// read at most this many events of each Server::step() and drop the iterator
+    pub server_event_limit: Option<usize>,
 }
 
 pub fn server_addr() -> SocketAddr {
@@ -229,6 +231,7 @@ impl World {
             seq: 0,
             raw_latency_us: 0,
             drop_all: false,
+            server_event_limit: None,
         }
     }
 
@@ -372,7 +375,8 @@ impl World {
         self.deliver_arrived(addr);
         let mut out = Vec::new();
         if let Some(server) = self.server.as_mut() {
-            for e in server.step() {
+            let limit = self.server_event_limit.unwrap_or(usize::MAX);
+            for e in server.step().take(limit) {
                 out.push(match e {
                     uflow::server::Event::Connect(a) => SEv::Connect(a),
                     uflow::server::Event::Disconnect(a) => SEv::Disconnect(a),
